@@ -243,7 +243,12 @@ func (r *Runner) Drain() {
 func (r *Runner) Close() {
 	if !r.Fini {
 		done := make(chan struct{})
-		go func() { r.Screen.Fini(); close(done) }()
+		go func() {
+			// clean-up after a case that has already been judged: a Fini that panics here must not
+			// take the whole process (and the verdict) with it
+			defer func() { _ = recover(); close(done) }()
+			r.Screen.Fini()
+		}()
 		select {
 		case <-done:
 		case <-pbt.After(10 * time.Second):
